@@ -79,3 +79,37 @@ func (p *Process) Kill() error {
 	}
 	return zsim.W.K.Kill(p.Pid)
 }
+
+func (c *Cmd) Run() error {
+	if err := c.Start(); err != nil {
+		return err
+	}
+	return c.Wait()
+}
+
+func (c *Cmd) String() string { return fmt.Sprint(c.Args) }
+
+func (p *Process) Signal(sig sos.Signal) error {
+	if zsim.Dying() || zsim.W == nil || zsim.W.K == nil {
+		return nil
+	}
+	if p.proc.Exited {
+		return sos.ErrProcessDone
+	}
+	if sig == sos.Kill {
+		return zsim.W.K.Kill(p.Pid)
+	}
+	zsim.W.K.Signal(p.Pid, sig.String())
+	return nil
+}
+
+func (p *Process) Release() error { return nil }
+
+func LookPath(file string) (string, error) { return file, nil }
+
+// ProcessState is what Wait leaves behind.
+type ProcessState struct{ code int }
+
+func (s *ProcessState) ExitCode() int { return s.code }
+func (s *ProcessState) Success() bool { return s.code == 0 }
+func (s *ProcessState) Exited() bool  { return true }
